@@ -120,6 +120,30 @@ def run(c):
     return {"nontrivial": oblique and nz_bins >= 3, "classes": classes}
 
 
+@st.composite
+def axis_case(draw):
+    """Cheap cases aimed at the sample count / time axis only (one component)."""
+    return {"two_d": False, "f": [0.05, 0.1, 0.2, 0.4], "e": [1.0, 2.0, 1.0, 0.5],
+            "fs": draw(st.one_of(st.sampled_from([3.0, 6.0, 7.0, 0.7, 1.1, 9.9, 2.5, 0.6]), fl(0.5, 10.0))),
+            "L": draw(st.one_of(st.integers(8, 200), st.integers(8, 3000))),
+            "seed": draw(st.integers(0, 2 ** 32 - 1))}
+
+
+def run_axis(c):
+    from ocean_science_utilities.wavespectra.timeseries import surface_timeseries
+    spec, _ = build(c)
+    fs, L = c["fs"], c["L"]
+    nfft = (L // 2) * 2
+    comp = "zwxyuv"[c["seed"] % 6]
+    t, s = surface_timeseries(comp, fs, L, spec, c["seed"])
+    t, s = np.asarray(t), np.asarray(s)
+    require(len(s) == len(t) == nfft, "as_many_samples_as_time_axis",
+            f"component={comp} fs={fs!r} L={L} len(series)={len(s)} len(time)={len(t)} expected={nfft}")
+    require(np.allclose(t, np.arange(nfft) / fs, rtol=1e-12, atol=1e-12), "time_axis_spacing", f"fs={fs!r} L={L}")
+    return {"nontrivial": True, "classes": ["axis_only", "odd_L" if L % 2 else "even_L"]}
+
+
 SUBCHECKS = [
     SubCheck("timeseries", lambda tier: case(big=(tier == "thorough")), run, {"quick": 200, "thorough": 1200}),
+    SubCheck("sample_count", lambda tier: axis_case(), run_axis, {"quick": 600, "thorough": 5000}),
 ]
